@@ -1097,6 +1097,7 @@ impl<'a, SE: extensions::ShellExtensions> WordExpander<'a, SE> {
     ) -> Result<Vec<WordField>, error::Error> {
         let mut fields: Vec<WordField> = vec![];
         let concatenation_joiner = self.shell.get_ifs_first_char();
+        let mut saw_empty_list = false;
 
         for piece in pieces {
             let Expansion {
@@ -1104,6 +1105,10 @@ impl<'a, SE: extensions::ShellExtensions> WordExpander<'a, SE> {
                 concatenate,
                 ..
             } = self.expand_word_piece(piece.piece).await?;
+
+            if !concatenate && this_fields.is_empty() {
+                saw_empty_list = true;
+            }
 
             let fields_to_append = if concatenate {
                 #[expect(unstable_name_collisions)]
@@ -1148,6 +1153,16 @@ impl<'a, SE: extensions::ShellExtensions> WordExpander<'a, SE> {
 
                 fields.push(WordField(next_pieces));
             }
+        }
+
+        // A quoted "$@" / "${a[@]}" that expanded to no fields makes the whole string vanish
+        // when everything else in it expanded to nothing as well ("$@$unset" with no
+        // positional parameters yields no field at all, not an empty one).
+        if saw_empty_list
+            && fields.len() == 1
+            && fields[0].0.iter().all(|piece| piece.as_str().is_empty())
+        {
+            fields.clear();
         }
 
         Ok(fields)
